@@ -76,13 +76,13 @@ def table_zeta(t, tb):
     return tuple((1.0 / tb) if s > 0 else -tb for s in ZETA_TABLE[t])
 
 
-def mk(basis, a, ytype, run, z=None, D=None, P=None):
+def mk(basis, a, ytype, run, z=None, D=None, P=None, post=()):
     if basis == "M":
         p = [a["mm"][0], a["mm"][1], a["mA"], a["mHp"], a["sba"], a["l6"], a["l7"], a["tb"], a["m122"]]
     else:
         p = [a["l%d" % i] for i in range(1, 8)] + [a["tb"], a["m122"]]
     smo, mhsm = SM_SETS[a.get("sm", "default")]
-    return T.case(basis, p, ytype=ytype, run=run, ckm=a["ckm"], sm=smo, mhsm=mhsm,
+    return T.case(basis, p, ytype=ytype, run=run, ckm=a["ckm"], sm=smo, mhsm=mhsm, post=post,
                   z=z if z is not None else (a["zu"], a["zd"], a["zl"]),
                   D=D if D is not None else (a["Du"], a["Dd"], a["Dl"]),
                   P=P if P is not None else (a["Pu"], a["Pd"], a["Pl"]))
@@ -101,7 +101,8 @@ def brief(c):
         return m if (m is None or isinstance(m, str)) else "[..]"
     return "%s p=%s type=%s run=%d ckm=%d zeta=%s Delta=%s Pi=%s SM=%s" % (
         c["basis"], ["%g" % x for x in c["p"]], T.TYPES[c["ytype"]], c["run"], c["ckm"], c["z"],
-        [mname(m) for m in c["D"]], [mname(m) for m in c["P"]], "alt" if c.get("sm") else "default")
+        [mname(m) for m in c["D"]], [mname(m) for m in c["P"]], "alt" if c.get("sm") else "default") + (
+        " then set_tan_beta(%s)" % ", ".join("%g" % x for x in c["post"]) if c.get("post") else "")
 
 
 # ---- oracle for one pair -----------------------------------------------------------------
@@ -167,6 +168,20 @@ def compare_pair(kind, cA, cB, rA, rB, comps, stats):
             fails.append((key,
                           "a_mu %s: %s gives %r, %s gives %r (|diff| %.3g > 1e-10 x sum|terms| = %.3g)"
                           % (names[k], T.TYPES[cA["ytype"]], a, T.TYPES[cB["ytype"]], b, err, tol)))
+    # fermion masses the two members carry (both are the SM input masses)
+    for f, sl, k_ in (("u", T.MFU, 0), ("d", T.MFD, 1), ("e", T.MFE, 2)):
+        ma, mb = rA.S[sl], rB.S[sl]
+        pimax = max([max(abs(x) for x in matlist(cc["P"][k_])) for cc in (cA, cB) if cc["ytype"] == 6] or [0.0])
+        scale_ = max(rA.S[(T.SM_MU, T.SM_MD, T.SM_ML)[k_]]) + rA.S[T.V] * pimax
+        for g in range(3):
+            err = abs(ma[g] - mb[g])
+            tol = TOL * max(abs(ma[g]), abs(mb[g])) + 1e-13 * scale_
+            if not (err <= tol):
+                fails.append(("%s:MF%s" % (tag, f), "fermion mass MF%s(%d): %s carries %r, %s carries %r (|diff| %.3g > %.3g)"
+                              % (f, g, T.TYPES[cA["ytype"]], ma[g], T.TYPES[cB["ytype"]], mb[g], err, tol)))
+                break
+            elif tol > 0:
+                stats["worst_MF"] = max(stats.get("worst_MF", 0.0), err / tol)
     bA, bB = yukawa_bounds(cA, rA.S), yukawa_bounds(cB, rB.S)
     for n, name in enumerate(T.YNAMES):
         ya, yb = rA.Y[18 * n:18 * n + 18], rB.Y[18 * n:18 * n + 18]
@@ -223,13 +238,13 @@ def eval_pairs(arg):
         if min(rA.S[T.MHH0], rA.S[T.MAH1], rA.S[T.MHM1]) <= 1e-4 * rA.S[T.SM_MZ]:
             out["massless"] += 1      # (nearly) massless Higgs state: a_mu itself is not finite
             continue
-        comps = (0, 1, 2, 3) if kind == "a" else (0, 2)
+        comps = (0, 1, 2, 3) if kind in ("a", "A") else (0, 2)
         fl = compare_pair(kind, cA, cB, rA, rB, comps, out["stats"])
         for key, what in fl:
             out["fails"].append((key, what, (kind, cA, cB)))
         S = rA.S
         out["keys"].add((kind, cA["basis"], cA["ytype"], cA["run"], cA["ckm"], bool(cA.get("sm")), (S[T.TB] > 1) - (S[T.TB] < 1),
-                         (S[T.SBA] > 0) - (S[T.SBA] < 0), tuple((z > 0) - (z < 0) for z in cB["z"]) if kind == "b" else 0))
+                         (S[T.SBA] > 0) - (S[T.SBA] < 0), tuple((z > 0) - (z < 0) for z in cB["z"]) if kind in ("b", "B") else 0, len(cA.get("post") or ())))
     return out
 
 
@@ -290,13 +305,67 @@ def expand(job, sminfo):
     kind, basis, vals = job[0], job[1], job[2]
     base = (BASES_M if basis == "M" else BASES_G)[0]
     a = dict(base)
-    a.update(zip(_dims(kind, basis), vals))
+    a.update(zip(_dims(kind.lower(), basis), vals))
     zero = ("0", "0", "0")
     if kind == "a":
         t, run = job[3], job[4]
         return ("a", mk(basis, a, t, run, z=(0.0, 0.0, 0.0), P=zero), mk(basis, a, 5, run, z=table_zeta(t, a["tb"]), P=zero))
+    if kind == "A":
+        # state family: the same set_tan_beta sequence applied to a type-N object and to the aligned object with zeta_f(final tan(beta))
+        t, run, seq = job[3], job[4], job[5]
+        return ("A", mk(basis, a, t, run, z=(0.0, 0.0, 0.0), P=zero, post=seq),
+                mk(basis, a, 5, run, z=table_zeta(t, seq[-1]), P=zero, post=seq))
+    if kind == "B":
+        seq = job[3]
+        cA = mk(basis, a, 5, 0, P=zero, post=seq)
+        return ("B", cA, general_from_aligned(cA, sminfo, tb=seq[-1]))
     cA = mk(basis, a, 5, 0, P=zero)
     return ("b", cA, general_from_aligned(cA, sminfo))
+
+
+def sequences(tb):
+    """set_tan_beta sequences applied after construction at tan(beta) = tb"""
+    return [(0.5 * tb,), (2.0 * tb,), (1.0 / tb,), (tb,), (0.5 * tb, tb), (2.0 * tb, 1.0 / tb)]
+
+
+def pairs_state(d):
+    """(d) object state: compact jobs ('A', basis, values, type, run, sequence) / ('B', basis, values, sequence)"""
+    for kind, k0 in (("A", "a"), ("B", "b")):
+        seen = set()
+        for basis, alpha, bases in (("M", ALPHA, BASES_M), ("G", ALPHA_G, BASES_G)):
+            dims = _dims(k0, basis)
+            for b in bases:
+                for a, combo in T.devprod(dims, b, alpha, d):
+                    vals = tuple(a[k] for k in dims)
+                    h = hash((basis, vals))
+                    if h in seen:
+                        continue
+                    seen.add(h)
+                    for seq in sequences(a["tb"]):
+                        if kind == "A":
+                            for t in (1, 2, 3, 4):
+                                for run in (0, 1):
+                                    yield ("A", basis, vals, t, run, seq)
+                        else:
+                            yield ("B", basis, vals, seq)
+
+
+def groups_state(d):
+    """set_tan_beta with the construction value, and tb -> tb' -> tb, leave the object bitwise as constructed"""
+    for basis, alpha, bases in (("M", ALPHA, BASES_M), ("G", ALPHA_G, BASES_G)):
+        dims = _dims("b", basis)
+        seen = set()
+        for b in bases:
+            for a, combo in T.devprod(dims, b, alpha, d):
+                vals = tuple(a[k] for k in dims)
+                if vals in seen:
+                    continue
+                seen.add(vals)
+                tb = a["tb"]
+                for t in (1, 2, 3, 4, 5, 6):
+                    for run in (0, 1):
+                        seqs = [(), (tb,), (0.5 * tb, tb), (2.0 * tb, tb), (1.0 / tb, tb)]
+                        yield ("set_tan_beta-noop-or-back:%s" % T.TYPES[t], [mk(basis, a, t, run, post=s_) for s_ in seqs])
 
 
 def pairs_a(d):
@@ -316,9 +385,11 @@ def pairs_a(d):
                         yield ("a", basis, vals, t, run)
 
 
-def general_from_aligned(cA, sminfo):
+def general_from_aligned(cA, sminfo, tb=None):
+    """general model with the Pi_f that encode the couplings of the aligned model cA at tan(beta) = tb
+    (default: the construction value; for the state family the value after the set_tan_beta sequence)"""
     sm = sminfo["alt" if cA.get("sm") else "default"]
-    tb = cA["p"][7]
+    tb = cA["p"][7] if tb is None else tb
     P = [T.pi_from_aligned(cA["z"][k], matlist(cA["D"][k]), (sm["mu"], sm["md"], sm["ml"])[k], tb, sm["v"]) for k in range(3)]
     cB = dict(cA)
     cB["ytype"] = 6
@@ -394,8 +465,8 @@ def run(ctx):
     for name_, ref_ in (("mw", 80.4335), ("mz", 91.05)):
         if sm["alt"][name_] != ref_ or sm["default"][name_] == ref_:
             raise InfraError("harness does not apply the SM override %s" % name_)
-    da, db, dc = (2, 2, 1) if ctx.quick else (3, 3, 2)
-    tot = dict(pairs_a=0, pairs_b=0, cases_c=0, thrown=0, evals=0, massless=0)
+    da, db, dc, ds = (2, 2, 1, 1) if ctx.quick else (3, 3, 2, 2)
+    tot = dict(pairs_a=0, pairs_b=0, pairs_d=0, cases_c=0, cases_d=0, thrown=0, evals=0, massless=0)
     stats = {}
     min_sm = [2]
     nproc = min(16, os.cpu_count() or 4)
@@ -409,7 +480,7 @@ def run(ctx):
             ctx.fail(key, msg, {"kind": data[0], "A": data[1], "B": data[2]})
 
     with mp.Pool(nproc) as pool:
-        for name, gen in (("a", pairs_a(da)), ("b", pairs_b(db))):
+        for name, gen in (("a", pairs_a(da)), ("b", pairs_b(db)), ("d", pairs_state(ds))):
             jobs = list(gen)
             tot["pairs_" + name] = len(jobs)
             for kind, cA, cB in [expand(jb, sm) for jb in jobs[:2] + jobs[-1:]]:
@@ -436,8 +507,16 @@ def run(ctx):
         for o in pool.imap(eval_groups, [(ch, q % 4 == 0) for q, ch in enumerate(T.strided_chunks(fine, 40))]):
             tot["cases_c"] += o["n"]
             absorb(o, "c")
+        # (d) bitwise part: set_tan_beta(construction value) and tb -> tb' -> tb leave the object as constructed
+        gstate = list(groups_state(1))
+        ctx.sample("(d) %s: reference %s, last member %s" % (gstate[0][0], brief(gstate[0][1][0]), brief(gstate[0][1][-1])))
+        for o in pool.imap(eval_groups, [(ch, q % 4 == 0) for q, ch in enumerate(T.strided_chunks(gstate, 40))]):
+            tot["cases_d"] += o["n"]
+            absorb(o, "d")
     ctx.evals(tot["evals"])
-    npairs = tot["pairs_a"] + tot["pairs_b"] + tot["cases_c"]
+    npairs = tot["pairs_a"] + tot["pairs_b"] + tot["cases_c"] + tot["pairs_d"] + tot["cases_d"]
+    print("[C09] (d) object state: %d pairs after set_tan_beta sequences (type N vs aligned at zeta_f(final tan beta), aligned vs general at Pi_f(final tan beta)), %d bitwise comparisons (no-op / there-and-back)"
+          % (tot["pairs_d"], tot["cases_d"]))
     print("[C09] (a) %d pairs, (b) %d pairs, (c) %d comparisons; %d model evaluations; rejected by the constructor %d (%.1f%%), skipped (massless Higgs state) %d"
           % (tot["pairs_a"], tot["pairs_b"], tot["cases_c"], tot["evals"], tot["thrown"], 100.0 * tot["thrown"] / max(1, npairs), tot["massless"]))
     print("[C09] worst |diff|/tolerance on passing pairs: %s" % {k: float("%.3g" % v) for k, v in sorted(stats.items())})
@@ -450,12 +529,13 @@ def run(ctx):
         "tolerance 1e-10 x sum of |terms|: a_mu terms = the library's own h, H, A, H+, SM pieces (1L, 2L-F) and EWadd, nonYuk, Yuk (2L-B); Yukawa entries: |sba| M/v, |cba| rho/sqrt2, rho terms from the inputs",
         "the SM input set (default / complete alternate set: MW, MZ, alpha_em, alpha_s, fermion masses, m_hSM) is a context dimension; every harness process evaluates both sets interleaved, every 4th process is repeated in reversed order and compared bitwise",
         "a constructor exception other than EPhysicalProblem (tachyon) on a lattice point is a violation (valid input refused)",
+        "(d) the object state is part of the alphabet: the same sequence of THDM::set_tan_beta calls (x0.5, x2, 1/tb, the construction value, tb->tb/2->tb, tb->2tb->1/tb) is applied to all members of an equivalence class, which are built for the final tan(beta) (zeta_f table resp. Pi_f at the final value) and compared like (a)/(b) incl. the fermion masses they carry; set_tan_beta(construction value) and there-and-back sequences must leave every printed value bitwise unchanged",
         "(c) compares the hex-float text of spectrum, a_mu and the twelve Yukawa matrices (bitwise, sign of zero included)"]
     return ctx.finish(
         "(a) contexts = all assignments with <= %d deviating dimensions from 3 mass-basis + 2 gauge-basis base points (Higgs sector, CKM, SM input set, Delta_f) x type I/II/X/Y x running on/off; "
         "(b) the same with zeta_f, Delta_f as extra dimensions (<= %d), running off, + full product zeta^3 x tan(beta) x CKM; "
-        "(c) per type and base point every ignored input over its alphabet (<= %d simultaneously); distinct = (part, basis, type, running, CKM, SM input set, tan(beta) class, sign sba, zeta signs)" % (da, db, dc),
-        {"pairs_a": tot["pairs_a"], "pairs_b": tot["pairs_b"], "comparisons_c": tot["cases_c"], "rejected_by_constructor": tot["thrown"],
+        "(c) per type and base point every ignored input over its alphabet (<= %d simultaneously); (d) contexts with <= %d deviations x 6 set_tan_beta sequences x type/running as in (a),(b) + bitwise no-op/there-and-back groups for all 6 types; distinct = (part, basis, type, running, CKM, SM input set, tan(beta) class, sign sba, zeta signs, length of the set_tan_beta sequence)" % (da, db, dc, ds),
+        {"pairs_a": tot["pairs_a"], "pairs_b": tot["pairs_b"], "pairs_d_state": tot["pairs_d"], "bitwise_comparisons_d_state": tot["cases_d"], "comparisons_c": tot["cases_c"], "rejected_by_constructor": tot["thrown"],
          "skipped_massless_state": tot["massless"],
          "worst_diff_over_tol": {k: float("%.3g" % v) for k, v in sorted(stats.items())}})
 
